@@ -548,7 +548,8 @@ func specBytesEq8(a, b []byte) bool {
 
 //@ func calculateModRM
 //@ props C02 C01 C03
-//@ requires mem != nil && specValidMem(mem)
+//@ requires mem != nil
+//@ requires[A2] specValidMem(mem)
 //@ requires bitMode == cpu.MODE_16BIT || bitMode == cpu.MODE_32BIT
 //@ requires regBits&0xC7 == 0
 //@ ensures[reg@C02+C01] err == nil ==> modrmByte&0x38 == regBits
@@ -648,6 +649,28 @@ func specRegNum(s string) int {
 //@ requires regName == "" || specIsRegName(regName)
 //@ ensures[num]    specRegNum(regName) >= 0 ==> result1 == nil && result0 == specRegNum(regName)
 //@ ensures[reject] specRegNum(regName) < 0 ==> result1 != nil
+
+// specIsMemText: the test the ModR/M builders use to tell a memory operand from a register name.
+func specIsMemText(s string) bool { return strings.Contains(s, "[") && strings.HasSuffix(s, "]") }
+
+//@ func ModRMByOperand
+//@ props C01 C13
+//@ requires bitMode == cpu.MODE_16BIT || bitMode == cpu.MODE_32BIT
+//@ requires[A16] !specReg64Name(regOperand) && !specReg64Name(rmOperand)
+//@ requires (regOperand == "" || specIsRegName(regOperand)) && (specIsMemText(rmOperand) || rmOperand == "" || specIsRegName(rmOperand))
+//@ ensures[regreg] !specIsMemText(rmOperand) && result1 == nil ==> len(result0) == 1 && specRegNum(regOperand) >= 0 && specRegNum(rmOperand) >= 0 && result0[0] == 0xC0|byte(specRegNum(regOperand))<<3|byte(specRegNum(rmOperand))
+//@ ensures[regreg.err] !specIsMemText(rmOperand) && (specRegNum(regOperand) < 0 || specRegNum(rmOperand) < 0) ==> result1 != nil
+//@ ensures[mem.reg] specIsMemText(rmOperand) && result1 == nil ==> len(result0) >= 1 && specRegNum(regOperand) >= 0 && result0[0]&0x38 == byte(specRegNum(regOperand))<<3
+//@ assigns OperandPegImpl.bitMode
+
+//@ func ModRMByValue
+//@ props C01 C13
+//@ requires bitMode == cpu.MODE_16BIT || bitMode == cpu.MODE_32BIT
+//@ requires 0 <= regValue && regValue <= 7
+//@ requires[A16] !specReg64Name(rmOperand)
+//@ requires specIsMemText(rmOperand) || rmOperand == "" || specIsRegName(rmOperand)
+//@ ensures[regdigit] !specIsMemText(rmOperand) && specRegNum(rmOperand) >= 0 ==> len(result0) == 1 && result0[0] == 0xC0|byte(regValue)<<3|byte(specRegNum(rmOperand))
+//@ assigns OperandPegImpl.bitMode
 
 //@ func registerToPushPopCode
 //@ props C01 C18
